@@ -609,9 +609,69 @@ func c07One(c *vh.Ctx, cs c07Case) {
 	c.Violation("C07/"+clause+"/"+cs.sig(), fmt.Sprintf("[%s %s %s] %s", cs.Base, cs.Call, cs.sig(), detail), cs)
 }
 
+// ---- messages whose values look like pattern variables ---------------------------------------------------------
+//
+// A message is data; a string in it may begin with a question mark.  A pattern variable then gets bound to a value
+// that looks like a variable, and the machine goes on matching with that binding.
+
+type c07VarCase struct {
+	VarLike bool          `json:"var_like"`
+	Pattern interface{}   `json:"pattern"`
+	Msgs    []interface{} `json:"msgs"`
+	Batch   bool          `json:"batch"` // both messages in one Walk / one Walk per message
+}
+
+var c07VarMsgs = []interface{}{M{"a": "?x"}, M{"a": "?y"}, M{"a": "??x"}, M{"a": "?<x"}, M{"a": "?"}, "?x", M{"?x": 1.0}, M{"a": M{"b": "?x"}}, M{"a": []interface{}{"?x"}}, M{"a": 1.0}, M{"a": "?x", "b": "?y"}, M{"a": "?y", "b": "?x"}}
+var c07VarPatterns = []interface{}{M{"a": "?x"}, "?x", M{"a": "?x", "b": "?y"}, M{"a": M{"b": "?x"}}, M{"a": []interface{}{"?x"}}, M{"?x": "?y"}, M{"a": "??x"}}
+
+func c07VarOne(c *vh.Ctx, cs c07VarCase) {
+	c.InFlight(cs)
+	c.Eval()
+	// a machine that listens, binds, and listens again with what it has bound
+	spec := &core.Spec{Name: "listener", Nodes: map[string]*core.Node{
+		"n0": {Branches: &core.Branches{Type: "message", Branches: []*core.Branch{{Pattern: clone(cs.Pattern), Target: "n1"}}}},
+		"n1": {Branches: &core.Branches{Type: "message", Branches: []*core.Branch{{Pattern: clone(cs.Pattern), Target: "n0"}}}},
+	}}
+	if err := spec.Compile(context.Background(), nil, true); err != nil {
+		return
+	}
+	st := &core.State{NodeName: "n0", Bs: match.NewBindings()}
+	batches := [][]interface{}{cs.Msgs}
+	if !cs.Batch {
+		batches = nil
+		for _, m := range cs.Msgs {
+			batches = append(batches, []interface{}{m})
+		}
+	}
+	for _, b := range batches {
+		var msgs []interface{}
+		for _, m := range b {
+			msgs = append(msgs, clone(m))
+		}
+		var w *core.Walked
+		var err error
+		if p, pm, where := vh.Trap(func() { w, err = spec.Walk(context.Background(), st, msgs, nil, nil) }); p {
+			c.Violation("C07/panic/variable-looking-message-value/"+where, fmt.Sprintf("pattern %s, messages %s: %s", rstep.Canon(cs.Pattern), rstep.Canon(cs.Msgs), pm), cs)
+			return
+		}
+		if err != nil || w == nil {
+			return
+		}
+		if to := w.To(); to != nil {
+			st = to
+		}
+	}
+	c.Nontrivial()
+}
+
 // C07: totality. All combinations of at most k hostile dimensions.
 func C07(c *vh.Ctx) {
 	if c.Replay != "" {
+		var vc c07VarCase
+		if c.LoadReplay(&vc) == nil && vc.VarLike {
+			c07VarOne(c, vc)
+			return
+		}
 		var cs c07Case
 		if c.LoadReplay(&cs) == nil {
 			c07One(c, cs)
@@ -620,9 +680,24 @@ func C07(c *vh.Ctx) {
 	}
 	k := c.Pick(2, 3)
 	c.Bound("max_hostile_dimensions", k)
-	c.Rule("dimensions spec-document / state / message / control / props / action behaviour / guard behaviour / error settings, each with a benign default and a list of hostile values; every combination with at most k non-default dimensions x every hostile value x base variant {Go structures with native actions, Go structures with ECMAScript, JSON text, YAML via jsccast/yaml, YAML via yaml.v2} x call {Walk, Step}; every call under a panic trap (+60 s hang horizon; scripts that loop run under a 25 ms deadline); where the reference walk/step is defined the result must equal it (failures surfaced as error states with error/lastNode/lastBindings). Duplicate-free odometer; non-trivial = combination exists in that base variant.")
+	c.Rule("dimensions spec-document / state / message / control / props / action behaviour / guard behaviour / error settings, each with a benign default and a list of hostile values; every combination with at most k non-default dimensions x every hostile value x base variant {Go structures with native actions, Go structures with ECMAScript, JSON text, YAML via jsccast/yaml, YAML via yaml.v2} x call {Walk, Step}; every call under a panic trap (+60 s hang horizon; scripts that loop run under a 25 ms deadline); where the reference walk/step is defined the result must equal it (failures surfaced as error states with error/lastNode/lastBindings). Plus messages whose values look like pattern variables (\"?x\", \"??x\", \"?<x\", \"?\", as values, keys, array members, the whole message) in histories of two and three, to a machine that binds with one of seven patterns and goes on listening with what it has bound. Duplicate-free odometer; non-trivial = combination exists in that base variant.")
 	bases := []string{"go-native", "go-js", "json", "yaml-jsccast", "yaml-v2"}
 	var idx uint64
+	// messages whose values look like pattern variables, in histories of up to three
+	for _, pat := range c07VarPatterns {
+		for _, m1 := range c07VarMsgs {
+			for _, m2 := range c07VarMsgs {
+				for _, batch := range []bool{true, false} {
+					idx++
+					if !c.Mine(idx) || c.Expired() {
+						continue
+					}
+					c07VarOne(c, c07VarCase{VarLike: true, Pattern: pat, Msgs: []interface{}{m1, m2}, Batch: batch})
+					c07VarOne(c, c07VarCase{VarLike: true, Pattern: pat, Msgs: []interface{}{m1, m2, m1}, Batch: batch})
+				}
+			}
+		}
+	}
 	var rec func(start int, left int, cs c07Case)
 	emit := func(cs c07Case) {
 		for _, b := range bases {
